@@ -422,7 +422,16 @@ func timedCopy(clientAddr net.Addr, clientConn net.PacketConn, targetConn *natco
 			}
 
 			debugUDPAddr(l, "Got response.", clientAddr, slog.Any("target", raddr))
+			// A link-local source carries an IPv6 zone, which a SOCKS address cannot
+			// represent: with the zone, the address would be serialized as a domain
+			// name that is longer than the space reserved for the header.
+			if udpAddr, ok := raddr.(*net.UDPAddr); ok && udpAddr.Zone != "" {
+				raddr = &net.UDPAddr{IP: udpAddr.IP, Port: udpAddr.Port}
+			}
 			srcAddr := socks.ParseAddr(raddr.String())
+			if srcAddr == nil || len(srcAddr) > maxAddrLen {
+				return onet.NewConnectionError("ERR_CONVERT_ADDRESS", fmt.Sprintf("Failed to convert target address %v", raddr), nil)
+			}
 			addrStart := bodyStart - len(srcAddr)
 			// `plainTextBuf` concatenates the SOCKS address and body:
 			// [padding?][salt][address][body][tag][unused]
